@@ -38,10 +38,14 @@ RULE = ("seeded generated families of node classes (source text exec'ed in a fre
         "keep or change the kind; defaults, init=False, compare=False, both, kw_only; re-declared origin; plain and "
         "postponed annotations) x schedules of first use (all classes defined then used in every / sampled permutation; "
         "each class defined just before its first use, in index order and in another order of use; random interleavings "
-        "with repeated uses; static accessor first vs instance accessor first) each on a fresh copy of the family x all "
+        "with repeated uses; static accessor first vs instance accessor first) each on a fresh copy of the family; TWINS: "
+        "the family defined twice in one module under the same class names (same field names / kinds / flags, own Field "
+        "objects with other metadata and defaults), either twin used first, interleaved and reversed x all "
         "2^5 x 2 flag vectors of get_properties and 2^5 of get_property_fields x instances with empty tuples, absent "
         "optionals, falsy children (__len__ -> 0, __bool__ -> False), an object twice in a tuple; a case is non-trivial "
-        "when the class has >= 2 user fields; distinct by request line")
+        "when the class has >= 2 user fields; distinct by request line; in-process oracle on every case: each Field "
+        "yielded by get_properties / iter_child_fields / get_child_nodes_with_field / get_property_fields / "
+        "get_child_fields `is` the entry of dataclasses.fields(type(instance))")
 TRUSTED = [
     "dataclasses.fields() of a class is modelled by `resolve` over the flat replay of the declarations met while expanding the reversed MRO recursively (Props/C12MI.lean `resolve_replay`: replaying = writing the bases' resolved field dicts, which is what dataclasses does); the C3 linearisation is computed by the harness from the generated data; the result is compared with the real fields() on every generated class",
     "the classification of an annotation as property / single child / tuple of children is data here (subject of C11); the harness's kind of every field is compared with pyoak's classification on every generated class",
@@ -87,6 +91,20 @@ class Use:
         self.cls_sx = h.sexp_class(k)
         self.nfields = len(h.user_fields(k))
         self.nontriv = self.nfields >= 2
+        self.foreign: list[str] = []
+
+    def _own(self, f, fmap, where: str) -> bool:
+        """oracle: a yielded Field must be the very entry of dataclasses.fields(type(instance))"""
+        if fmap.get(f.name) is f:
+            return True
+        self.foreign.append(f"{where} yielded a Field {f.name!r} that is not dataclasses.fields({self.cls.__name__})"
+                            f"[{f.name!r}] (default={f.default!r}, metadata={dict(f.metadata)!r})")
+        return False
+
+    def _oracle(self):
+        msg = "; ".join(self.foreign[:3]) or None
+        self.foreign = []
+        return msg
 
     # ---- real side helpers
     def _fv(self, v):
@@ -100,7 +118,7 @@ class Use:
 
     def _pair(self, inst, v, f, fmap, child: bool):
         out = [f.name, self._fv(v) if child else self.vt.tok(v)]
-        if fmap.get(f.name) is not f:
+        if not self._own(f, fmap, "iter_child_fields" if child else "get_properties"):
             out.append(A("stale-field"))
         if getattr(inst, f.name, None) is not v:
             out.append(A("not-the-stored-object"))
@@ -141,24 +159,32 @@ class Use:
                 out.append([f.name, A(kind), f.compare, f.init, f.kw_only])
             return dumps([A("ok")] + out)
 
+        fmap = {f.name: f for f in dataclasses.fields(cls)}
+
+        def names(fs, where):
+            return [f.name if self._own(f, fmap, where) else [f.name, A("stale-field")] for f in fs]
+
         def child_fields_real():
-            return dumps([A("ok")] + [f.name for f in cls.get_child_fields()])
+            return dumps([A("ok")] + names(cls.get_child_fields(), "get_child_fields"))
+
+        def mk_child_fields():
+            real = _guard(child_fields_real)
+            return Case("get_child_fields", dumps([A("acc-child-fields"), sx]), real, self.nontriv,
+                        self.desc("get_child_fields()"), sig="get_child_fields", oracle_fail=self._oracle())
 
         acts = [("fields", lambda: Case("fields", dumps([A("acc-fields"), sx]), _guard(fields_real), self.nontriv,
                                         self.desc("dataclasses.fields + classification"), sig="fields")),
-                ("child_fields", lambda: Case("get_child_fields", dumps([A("acc-child-fields"), sx]),
-                                              _guard(child_fields_real), self.nontriv,
-                                              self.desc("get_child_fields()"), sig="get_child_fields"))]
+                ("child_fields", mk_child_fields)]
         for fl in FLAG_GRID:
             def mk(fl=fl):
-                real = _guard(lambda: dumps([A("ok")] + [f.name for f in cls.get_property_fields(*fl)]))
+                real = _guard(lambda: dumps([A("ok")] + names(cls.get_property_fields(*fl), "get_property_fields")))
                 return Case("get_property_fields", dumps([A("acc-prop-fields"), sx, [A("flags")] + list(fl)]), real,
                             self.nontriv, self.desc(f"get_property_fields{fl}"),
-                            sig=f"get_property_fields|{_flagsig(fl)}")
+                            sig=f"get_property_fields|{_flagsig(fl)}", oracle_fail=self._oracle())
             acts.append(("pf", mk))
         return acts
 
-    def instance_cases(self, all_flags: bool = True):
+    def instance_cases(self, all_flags: bool = True, n_flags: int = 6):
         try:
             inst, vals = Z.make_instance(self.rng, self.h, self.k)
         except Exception as e:  # noqa
@@ -194,28 +220,29 @@ class Use:
                     out = []
                     for c, f, i in inst.get_child_nodes_with_field(sort_keys=s):
                         e = [self.toks.tok(c), f.name, i]
-                        if fmap.get(f.name) is not f:
+                        if not self._own(f, fmap, "get_child_nodes_with_field"):
                             e.append(A("stale-field"))
                         out.append(e)
                     return dumps([A("ok")] + out)
                 return Case("get_child_nodes_with_field", dumps([A("acc-wf"), sx, ix, [A("sort"), s]]), _guard(run),
                             self.nontriv, self.desc(f"{idesc}\nget_child_nodes_with_field(sort_keys={s})"),
-                            sig=f"get_child_nodes_with_field|sort={s}")
+                            sig=f"get_child_nodes_with_field|sort={s}", oracle_fail=self._oracle())
 
             def it(s=s):
                 real = _guard(lambda: dumps([A("ok")] + [self._pair(inst, v, f, fmap, True)
                                                           for v, f in inst.iter_child_fields(sort_keys=s)]))
                 return Case("iter_child_fields", dumps([A("acc-iter"), sx, ix, [A("sort"), s]]), real, self.nontriv,
-                            self.desc(f"{idesc}\niter_child_fields(sort_keys={s})"), sig=f"iter_child_fields|sort={s}")
+                            self.desc(f"{idesc}\niter_child_fields(sort_keys={s})"), sig=f"iter_child_fields|sort={s}",
+                            oracle_fail=self._oracle())
             acts += [("nodes", nodes), ("wf", wf), ("iter", it)]
-            grid = FLAG_GRID if all_flags else self.rng.sample(FLAG_GRID, 6)
+            grid = FLAG_GRID if all_flags else self.rng.sample(FLAG_GRID, n_flags)
             for fl in grid:
                 def props(s=s, fl=fl):
                     real = _guard(lambda: dumps([A("ok")] + [self._pair(inst, v, f, fmap, False)
                                                               for v, f in inst.get_properties(*fl, sort_keys=s)]))
                     return Case("get_properties", dumps([A("acc-props"), sx, ix, [A("flags")] + list(fl), [A("sort"), s]]),
                                 real, self.nontriv, self.desc(f"{idesc}\nget_properties{fl} sort_keys={s}"),
-                                sig=f"get_properties|{_flagsig(fl)}")
+                                sig=f"get_properties|{_flagsig(fl)}", oracle_fail=self._oracle())
                 acts.append(("props", props))
 
         def children():
@@ -296,6 +323,27 @@ def schedules(rng: random.Random, n: int, tier: str):
     return out
 
 
+def twin_schedules(rng: random.Random, n: int, tier: str):
+    """the family and its twin (same module, same class names, own Field objects): which of the two
+    same-named classes is used first"""
+    modes = ["static", "instance", "mixed"]
+    m = lambda: rng.choice(modes)  # noqa
+    defs = [("def", k, t) for t in (0, 1) for k in range(n)]
+    out = [
+        defs + [("use", k, m(), 0) for k in range(n)] + [("use", k, m(), 1) for k in range(n)],
+        defs + [("use", k, m(), 1) for k in range(n)] + [("use", k, m(), 0) for k in range(n)] +
+        [("use", k, m(), 1) for k in range(n)],
+    ]
+    inter = [x for k in range(n) for t in (0, 1) for x in (("def", k, t), ("use", k, m(), t))]
+    rev = defs + [("use", k, m(), t) for k in reversed(range(n)) for t in (1, 0)]
+    out += [inter, rev] if tier != "quick" else [rng.choice([inter, rev])]
+    return out
+
+
+def _op_txt(o) -> str:
+    return o[0] + str(o[1]) + ("'" if o[-1] == 1 and len(o) > (2 if o[0] == "def" else 3) else "")
+
+
 def run_schedule(rng: random.Random, proto_h: Z.Hier, sched, tag: str):
     h = proto_h.copy(Z.next_uid())
     _stat("schedules")
@@ -303,28 +351,42 @@ def run_schedule(rng: random.Random, proto_h: Z.Hier, sched, tag: str):
         h.open_module()
     except Exception as e:  # noqa
         raise RuntimeError(f"generated header does not import: {e}")
+    hs = {0: h}
     toks = zoo.Tokens()
     vt = VTable()
-    used: set[int] = set()
+    used: set = set()
+    stxt = " ".join(_op_txt(o) for o in sched)
     for op in sched:
+        t = op[2] if op[0] == "def" and len(op) > 2 else (op[3] if op[0] == "use" and len(op) > 3 else 0)
+        if t not in hs:
+            hs[t] = h.twin(t)
+            _stat("twin families (same module + class names)")
+        ht = hs[t]
         if op[0] == "def":
             try:
-                h.define(op[1])
+                ht.define(op[1])
             except Exception as e:  # noqa
                 # whether a class definition is accepted is not C12's subject: the hierarchy is skipped and
                 # counted (cases() stops with a machinery error when rejections are not rare)
                 _stat("rejected definitions")
-                REJECTED.append(f"{type(e).__name__}: {e}\n{h.source()}")
+                REJECTED.append(f"{type(e).__name__}: {e}\n{ht.source()}")
                 return
             continue
-        _, k, mode = op
-        u = Use(h, k, rng, toks, vt, f"{tag}; schedule {' '.join(o[0] + str(o[1]) for o in sched)}; first touch {mode}")
-        first = k not in used
-        used.add(k)
-        st = u.static_cases() if first else rng.sample(u.static_cases(), 4)
-        ins = u.instance_cases(all_flags=first)
-        for _ in range(2):
-            ins += u.instance_cases(all_flags=False)      # further instances: other values, absent / empty / falsy
+        k, mode = op[1], op[2]
+        u = Use(ht, k, rng, toks, vt, f"{tag}; schedule {stxt} (x' = the twin class of the same name); "
+                                       f"{'twin ' if t else ''}first touch {mode}")
+        first = (t, k) not in used
+        used.add((t, k))
+        if len(hs) == 1:
+            st = u.static_cases() if first else rng.sample(u.static_cases(), 4)
+            ins = u.instance_cases(all_flags=first)
+            for _ in range(2):
+                ins += u.instance_cases(all_flags=False)  # further instances: other values, absent / empty / falsy
+        else:
+            # twin runs are about *which class's Field objects* come back: fewer flag vectors
+            st = u.static_cases()
+            st = st[:2] + rng.sample(st[2:], 4)
+            ins = u.instance_cases(all_flags=False, n_flags=3)
         if mode == "static":
             acts = st + ins
         elif mode == "instance":
@@ -386,11 +448,13 @@ def extra_coverage():
 
 
 def cases(rng: random.Random, tier: str):
-    n_h = 40 if tier == "quick" else 900
+    n_h = 30 if tier == "quick" else 550
     for j in range(n_h):
         proto_h = Z.gen_hier(rng)
         _hier_stats(proto_h)
         for si, sched in enumerate(schedules(rng, len(proto_h.levels), tier)):
             yield from run_schedule(rng, proto_h, sched, f"hierarchy {j} schedule {si}")
+        for si, sched in enumerate(twin_schedules(rng, len(proto_h.levels), tier)):
+            yield from run_schedule(rng, proto_h, sched, f"hierarchy {j} twin schedule {si}")
         if len(REJECTED) > 3 and len(REJECTED) > 0.02 * STATS.get("schedules", 1):
             raise RuntimeError("too many generated class definitions are rejected, e.g.\n" + REJECTED[-1])
